@@ -15,7 +15,12 @@ REPR2VID.update({repr("{T}/" + d): k for k, d in DIRV.items()})
 # the property oracle takes the names from inspect.signature in the runner)
 SIG_STR = ["self", "model_str", "file_name", "debug", "pre_ref_resolution_callback", "encoding"]
 SIG_FILE = ["self", "file_name", "encoding", "debug"]
-BENIGN = {"debug": None, "encoding": "utf-8", "pre_ref_resolution_callback": None, "file_name": None}
+SIG_REPO = ["self", "global_model_repo", "encoding"]
+BENIGN = {"debug": None, "encoding": "utf-8", "pre_ref_resolution_callback": None, "file_name": None, "global_model_repo": None}
+
+
+def sig_for(entry):
+    return SIG_FILE if entry == "file" else (SIG_REPO if entry == "repo" else SIG_STR)
 USER_NAMES = ["p1", "p2", "mode", "source", "name", "kwargs", "k"]
 UNDECLARED = ["q", "undeclared", "Project_root", "p", "project_roo", "description"]
 PROVS = ["none", "importuri", "importuri_fqn", "importuri_sp", "importuri_fqn_sp", "rrel", "globalrepo", "globalrepo_fqn"]
@@ -144,7 +149,7 @@ def gen_kw(r, entry, declared, fam, malformed):
         elif cls == "undecl":
             k = r.choice(UNDECLARED + USER_NAMES)
         elif cls == "reserved":
-            k = r.choice(SIG_STR)
+            k = r.choice(SIG_REPO if entry == "repo" else SIG_STR)
         else:
             k = "project_root"
         if k in used:
@@ -165,7 +170,7 @@ def gen_case(r, idx, malformed=False):
     fam = family(prov)
     case = {"prov": prov, "grepo": r.chance(0.45), "dirs": ["root", "cwd", "lib"], "search_path": [], "patterns": []}
     # several registered languages: imports of *.n<k> files are loaded by another metamodel with its own declarations
-    multi = fam != "none" and prov != "rrel" and r.chance(0.4)
+    multi = fam != "none" and prov != "rrel" and r.chance(0.6 if fam == "globalrepo" else 0.4)
     case["nlangs"] = r.choice([2, 2, 3]) if multi else 0
     case["builtin"] = fam == "importuri" and prov != "rrel" and r.chance(0.25)
     # declarations
@@ -194,7 +199,7 @@ def gen_case(r, idx, malformed=False):
     for b in bases[:nroot]:
         files.append(mk("root", b))
     if fam == "globalrepo":
-        for b in r.sample(bases[:nroot], r.range(0, nroot)):
+        for b in (bases[:nroot] if r.chance(0.5) else r.sample(bases[:nroot], r.range(0, nroot))):
             files.append(mk("cwd", b))
     if is_sp(prov):
         case["search_path"] = ["lib"]
@@ -248,11 +253,13 @@ def gen_case(r, idx, malformed=False):
     ops = []
     nfresh = 0
     for k in range(r.range(2, 5) if (case["grepo"] or case["builtin"]) else r.range(1, 3)):
-        entry = r.weighted([("file", 6), ("strfn", 3), ("str", 3)])
+        entry = r.weighted([("file", 6), ("strfn", 3), ("str", 3), ("repo", (6 if multi else 2) if (fam == "globalrepo" and not case["grepo"]) else 0)])
         if k == 0 and case["builtin"]:
             entry = "str"
         op = {"entry": entry, "is_str": True, "fn_keyword": r.chance(0.5)}
-        if entry == "file":
+        if entry == "repo":
+            pass
+        elif entry == "file":
             if r.chance(0.08 if malformed else 0.02):
                 op["path"] = "root/n%d.m" % nfresh
                 nfresh += 1
@@ -276,7 +283,9 @@ def gen_case(r, idx, malformed=False):
             if r.chance(0.12 if malformed else 0.02) and not (k == 0 and case["builtin"]):
                 op["is_str"] = False
                 op["notstr"] = {"v": r.choice([5, None, 1.5])}
-        if k == 0 and case["builtin"]:
+        if entry == "repo":
+            op["kwv"] = gen_kw(r, entry, declared + UNDECLARED[:2], fam, malformed)    # nothing is validated here
+        elif k == 0 and case["builtin"]:
             op["kwv"] = [[n, r.below(len(VALS))] for n in r.sample(declared, min(len(declared), r.range(0, 2)))]
         else:
             op["kwv"] = gen_kw(r, entry, declared, fam, malformed)
@@ -292,7 +301,7 @@ def finalize(case):
     for op in case["ops"]:
         if "path" in op and op["path"] not in ids:
             ids[op["path"]] = len(ids)
-        sig = SIG_FILE if op["entry"] == "file" else SIG_STR
+        sig = sig_for(op["entry"])
         kw = []
         for k, v in op["kwv"]:
             if k in sig and k in BENIGN:
@@ -330,7 +339,10 @@ def coq_case(case):
     c = "{| c_prov := %s; c_grepo := %s |}" % ({"none": "PNone", "importuri": "PImportURI", "globalrepo": "PGlobalRepo"}[fam], core.coq_bool(case["grepo"]))
     ops = []
     for op in case["ops"]:
-        if op["entry"] == "file":
+        if op["entry"] == "repo":
+            e = "ERepo"
+            content = c_file(case, None, [], False)
+        elif op["entry"] == "file":
             e = "EFile %d" % case["ids"][op["path"]]
             content = "{| f_imports := []; f_prim := false; f_lang := None |}"
         else:
@@ -368,7 +380,12 @@ def r_outcome(case, o):
         return "S"
     if k == "err":
         cls = o["exc"].split(":")[0]
+        if cls == "AttributeError" and "'NoneType' object has no attribute 'internal_model_from_file'" in o["exc"]:
+            return "E:nomm"
         return "E:" + {"FileNotFoundError": "missing", "OSError": "missing", "AttributeError": "prim", "TypeError": "nofile"}.get(cls, cls)
+    if k == "repo":
+        return "G new[%s] repo[%s]" % (" ".join(r_desc(case, d) for d in o["new"]),
+                                       " ".join("%s:%s" % (case["ids"].get(key, "?" + key), r_desc(case, d)) for key, d in o["repo"]))
     s = "L %s new[%s]" % (r_desc(case, o["result"]), " ".join(r_desc(case, d) for d in o["new"]))
     if o["repo"] is None:
         return s + " repo-"
@@ -394,8 +411,8 @@ def oracle(case, out):
             bad.append("model_param_defs.add(%r) raised %s: %s" % (name, a["exc"], a["msg"]))
     born = {}     # (op, file) -> params at creation, for models created by earlier loads
     for k, (op, o) in enumerate(zip(case["ops"], out["ops"])):
-        sig = sig_f if op["entry"] == "file" else sig_s
-        supplied = sig[:2] if op["entry"] in ("file", "str") else sig[:3]
+        sig = sig_f if op["entry"] == "file" else (out["sig_repo"] if op["entry"] == "repo" else sig_s)
+        supplied = sig[:1] if op["entry"] == "repo" else (sig[:2] if op["entry"] in ("file", "str") else sig[:3])
         given = [(key, spec) for key, spec in op["kw"]]
         names = [key for key, _ in given]
         if any(n in supplied for n in names):
@@ -403,6 +420,21 @@ def oracle(case, out):
         model_kw = [(key, spec) for key, spec in given if key not in sig]
         unknown = [key for key, _ in model_kw if key not in declared]
         where = "op %d (%s %s)" % (k, op["entry"], names)
+        if op["entry"] == "repo":
+            # load_models_in_model_repo: documented as unchecked; whatever it is given reaches every model it loads
+            if o["kind"] in ("rejected", "typeerror"):
+                bad.append(where + ": load_models_in_model_repo refused its keyword arguments: %s" % o.get("exc"))
+            if o["kind"] == "repo":
+                want = [[key, repr_of(spec)] for key, spec in model_kw]
+                for d in o["new"]:
+                    p = d["params"]
+                    if not d["prim"] and (p is None or p["items"] != want or not p["is_mp"]):
+                        bad.append(where + ": model of %s loaded by load_models_in_model_repo exposes %s, given %s" % (d["file"], None if p is None else p["items"], want))
+                    born[(k, d["file"])] = p
+                for fname, p in o["seen"]:
+                    if p is None or p["items"] != want:
+                        bad.append(where + ": at object-processor time the model of %s exposed %s, given %s" % (fname, None if p is None else p["items"], want))
+            continue
         for key in names:
             if key in declared and key in sig:
                 bad.append(where + ": declared parameter %r is bound to an explicit argument of the entry point and cannot reach the model" % key)
@@ -514,7 +546,7 @@ def fill_texts(case):
         if "text" not in f:
             f["text"] = text_of(case, f["base"], f["uris"], f["prim"], os.path.dirname(f["path"]), lang_of(case, f["path"]) if case.get("nlangs") else 0)
     for op in case["ops"]:
-        if op["entry"] != "file" and "text" not in op:
+        if op["entry"] not in ("file", "repo") and "text" not in op:
             dirname = os.path.dirname(op["path"]) if op["entry"] == "strfn" else None
             base = stem(op["path"]) if op["entry"] == "strfn" else "z"
             op["text"] = text_of(case, base, op["content"]["uris"], op["content"]["prim"], dirname)
@@ -525,7 +557,7 @@ def strip(case):
 
 
 def nontrivial(case, out):
-    return any(o["kind"] == "rejected" or (o["kind"] == "loaded" and (len(o["new"]) > 1 or any(d["params"] and d["params"]["items"] for d in o["new"])))
+    return any(o["kind"] == "rejected" or (o["kind"] in ("loaded", "repo") and (len(o["new"]) > 1 or any(d["params"] and d["params"]["items"] for d in o["new"])))
                for o in out["ops"])
 
 
